@@ -45,8 +45,10 @@ struct CubeDef { unsigned char t[3]; Val value, dflt; };
 static const CubeDef CA = {{1, 2, 2}, 1, 0}, CB = {{1, 1, 2}, 1, 0}, CK = {{1, 1, 1}, 1, 0};
 #elif CUBES == 1    // different leaves and default values, shared sink
 static const CubeDef CA = {{2, 1, 2}, 1, 0}, CB = {{0, 2, 2}, 2, 0}, CK = {{0, 1, 2}, 2, 0};
-#else               // constants and a cube; default values differ
+#elif CUBES == 2    // constants and a cube; default values differ
 static const CubeDef CA = {{2, 2, 2}, 1, 1}, CB = {{1, 0, 2}, 1, 3}, CK = {{2, 2, 2}, 3, 3};
+#else               // an all-don't-care cube whose (unused) default is a leaf that other live diagrams use
+static const CubeDef CA = {{2, 2, 2}, 1, 3}, CB = {{1, 0, 2}, 3, 0}, CK = {{2, 2, 2}, 3, 3};
 #endif
 static Cube cubeOf(const CubeDef& c) { Cube q; for (unsigned i = 0; i < NV; ++i) q.t[i] = c.t[i]; return q; }
 
